@@ -1025,6 +1025,32 @@ pub fn run_c35(ctx: &Ctx) -> i32 {
         let root = "\\u0061".repeat(k);
         judge("escaped-state-root", &mk("1", &root, &["00".into()], &[0], ""), Some(k <= MAX_STATE_ROOT_HEX_LEN), json!({"escapes": k}));
     }
+    // multi-byte characters: the caps are byte caps (validate() measures bytes), so a string may be within the cap counted in
+    // characters and over it in bytes; literal UTF-8 and \u escapes (incl. surrogate pairs), for the state root and for nodes
+    for (ch, esc, width) in [("\u{e9}", "\\u00e9", 2usize), ("\u{20ac}", "\\u20ac", 3), ("\u{1f600}", "\\ud83d\\ude00", 4)] {
+        for chars in [MAX_STATE_ROOT_HEX_LEN / width, MAX_STATE_ROOT_HEX_LEN / width + 1, MAX_STATE_ROOT_HEX_LEN / 2, MAX_STATE_ROOT_HEX_LEN - 1, MAX_STATE_ROOT_HEX_LEN, MAX_STATE_ROOT_HEX_LEN + 1] {
+            let bytes = chars * width;
+            let want = if bytes > MAX_STATE_ROOT_HEX_LEN { Some(false) } else { None };
+            judge("state-root-multibyte", &mk("1", &ch.repeat(chars), &["00".into()], &[0], ""), want, json!({"chars": chars, "bytes": bytes, "form": "literal"}));
+            judge("state-root-multibyte", &mk("1", &esc.repeat(chars), &["00".into()], &[0], ""), want, json!({"chars": chars, "bytes": bytes, "form": "escaped"}));
+            // mixed: ASCII up to the cap in characters, one wide character among them
+            if chars >= 2 {
+                let mixed = format!("{}{}", "a".repeat(chars - 1), ch);
+                let mb = chars - 1 + width;
+                judge("state-root-multibyte", &mk("1", &mixed, &["00".into()], &[0], ""), if mb > MAX_STATE_ROOT_HEX_LEN { Some(false) } else { None }, json!({"chars": chars, "bytes": mb, "form": "mixed"}));
+            }
+        }
+        for chars in [MAX_STORAGE_PROOF_NODE_HEX_LEN / width, MAX_STORAGE_PROOF_NODE_HEX_LEN / width + 1, MAX_STORAGE_PROOF_NODE_HEX_LEN - 1] {
+            let bytes = chars * width;
+            judge("node-multibyte", &mk("1", "00", &[ch.repeat(chars)], &[0], ""), if bytes > MAX_STORAGE_PROOF_NODE_HEX_LEN.min(MAX_STORAGE_PROOF_HEX_BYTES) { Some(false) } else { None }, json!({"chars": chars, "bytes": bytes}));
+        }
+        // total over several nodes: each node within the per-node cap in bytes, the sum over the total cap in bytes but not in characters
+        let parts = 4usize;
+        let per = MAX_STORAGE_PROOF_HEX_BYTES / parts / width + 8;
+        let nodes: Vec<String> = vec![ch.repeat(per); parts];
+        let total = per * width * parts;
+        judge("total-multibyte", &mk("1", "00", &nodes, &[0], ""), if total > MAX_STORAGE_PROOF_HEX_BYTES { Some(false) } else { None }, json!({"chars_total": per * parts, "bytes_total": total}));
+    }
     // extra / duplicate / missing fields, nesting, truncation
     let base = mk("7", "00", &["00".into(), "ff".into()], &[0, 1, 2], "");
     judge("valid-small", &base, Some(true), json!({}));
